@@ -7,3 +7,4 @@ INVARIANT WideSampleOK
 INVARIANT DensityExpOK
 INVARIANT BinReprOK
 INVARIANT SnapshotOK
+INVARIANT PovmOK
